@@ -13,6 +13,9 @@
 #include "gm.h"
 void trap(Trap t) { fprintf(stderr, "trap %d\n", (int)t); abort(); }
 /* the real futex library is linked: wait / notify / atomic instructions of OTHER threads run while this memory is being grown */
+#ifdef IMPORTED_MEM
+static void* resolveMem(const char* module, const char* name) { static wasmMemory* m; (void)module; (void)name; if (!m) m = wasmMemoryAllocate(MEM_MIN, MEM_MAX, true); return m; }
+#endif
 #define MAXT 16
 #define MAXOPS 4096
 typedef struct { unsigned long long c, r; int op; unsigned arg, res; } Op;   /* op: 0 grow 1 size 2 store 3 load; 4 first load of a private cell
@@ -65,7 +68,11 @@ int main(int argc, char** argv) {
   unsigned long long seed = argc > 1 ? strtoull(argv[1], NULL, 0) : 1; pthread_t th[MAXT]; unsigned t; int k;
   nthreads = argc > 2 ? (unsigned)atoi(argv[2]) : 4; opsPer = argc > 3 ? (unsigned)atoi(argv[3]) : 50; delayMode = argc > 4 ? atoi(argv[4]) : 1;
   if (nthreads > MAXT) nthreads = MAXT;
+#ifdef IMPORTED_MEM
+  gmInstantiate(&parent, resolveMem);      /* the shared memory belongs to the embedder and is imported by the module */
+#else
   gmInstantiate(&parent, NULL);
+#endif
   initPages = gm_mem(&parent)->pages; maxPages = gm_mem(&parent)->maxPages;
   for (t = 0; t < nthreads; t++) child[t] = (gmInstance*)parent.common.newChild((wasmModuleInstance*)&parent);
   gseed = seed;
